@@ -86,7 +86,7 @@ class TimeDomainSolution(CircuitSolution):
     solver: NetworkSolver = field(default=nodal_analysis_bias_point_solver)
 
     def __post_init__(self):
-        self.w = frequency_components(self.circuit, self.w_max)
+        self.w = frequency_components(self.circuit, self.w_max) or [0.0] # a circuit without sources is still analysed (everything is zero, unknown identifiers are rejected)
         networks = transform(self.circuit, w=self.w)
         self._solutions = [self.solver(network) for network in networks]
 
@@ -114,7 +114,7 @@ class FrequencyDomainSolution(CircuitSolution):
     one_sided: bool = field(default=True)
 
     def __post_init__(self):
-        self._one_sided_w = np.array(frequency_components(self.circuit, self.w_max))
+        self._one_sided_w = np.array(frequency_components(self.circuit, self.w_max) or [0.0]) # a circuit without sources is still analysed
         self._solutions = [ComplexSolution(circuit=self.circuit, solver=self.solver, w=w, peak_values=True) for w in self._one_sided_w]
         self.w = self._one_sided_w
         if not self.one_sided:
